@@ -10,7 +10,12 @@ from lazy_object_proxy import Proxy
 
 from spec_classes.types import MISSING, Attr
 from spec_classes.utils.method_builder import MethodBuilder
-from spec_classes.utils.mutation import mutate_attr, mutate_value, prepare_attr_value
+from spec_classes.utils.mutation import (
+    delattr_mutate_safe,
+    mutate_attr,
+    mutate_value,
+    prepare_attr_value,
+)
 
 from .base import AttrMethodDescriptor
 
@@ -273,7 +278,7 @@ class ResetAttrMethod(AttrMethodDescriptor):
             return self
         if not _inplace:
             self = copy.deepcopy(self)
-        delattr(self, attr_spec.name)
+        delattr_mutate_safe(self, attr_spec.name, inplace=_inplace)
         return self
 
     def build_method(self) -> Callable:
